@@ -12,6 +12,8 @@ run-time panic sites of the anchored files to the CURRENT source.
 import Pandora.Proofs.C19
 import Pandora.Proofs.C19Vars
 import Pandora.Bridge.C19
+import Pandora.Proofs.C19Run
+import Pandora.Bridge.C19Run
 
 namespace Pandora.Props.C19
 open Pandora.Model.C10 Pandora.Model.C19 Pandora.Proofs.C19
@@ -568,6 +570,116 @@ theorem C19_vars_instance (scn : String)
   rw [this.2.1]
   simp [rs]
 
+/-! ## round 4: the code the guns depend on — the clock, the shared iterator, the dialer, the pooled sample -/
+
+/-- the schedule tokens an instance meets: is the token overdue when the instance gets to it (the clock decides — a
+target that answers slowly makes the following tokens overdue), and the shot it would take -/
+def tokensOf (tokens : List (Bool × GunShot)) : List Token :=
+  tokens.map fun p => { slowDown := p.1, shot := p.2.run }
+
+/-- `instance.Run` against the clock, with and without `discard_overflow`, for EVERY sequence of tokens, every verdict
+of the waiter on each of them and every shot: if no shot that is actually TAKEN (the condition of the current source,
+`Gen.RespGuard.instanceShootCond`) is the documented fatal one, the instance takes every token, and the aggregator
+receives for each token the samples of its shot or — overdue with `discard_overflow` — exactly ONE `discarded` sample
+(no status, failure code 777: what the current netsample constants say); the run fails the pool iff a TAKEN shot is
+the documented fatal one (a discarded token cannot); without `discard_overflow` the loop is the plain shooting loop of
+the earlier theorems, however slow the target is. -/
+theorem C19_discard_overflow (discard : Bool) (tokens : List (Bool × GunShot)) :
+    ((∀ p ∈ tokens, Gen.RespGuard.instanceShootCond discard p.1 = true → p.2.documentedFatal = false) →
+      (instanceRunSched discard (tokensOf tokens)).result = .finished ∧
+      (instanceRunSched discard (tokensOf tokens)).shotsTaken = tokens.length ∧
+      (instanceRunSched discard (tokensOf tokens)).samples =
+        (tokens.map fun p => if Gen.RespGuard.instanceShootCond discard p.1 then p.2.run.reports
+          else [⟨Gen.RespGuard.discardedTag, 0, 0, Gen.RespGuard.discardedNet⟩]).flatten) ∧
+    ((instanceRunSched discard (tokensOf tokens)).result = .poolFailed ↔
+      ∃ p ∈ tokens, Gen.RespGuard.instanceShootCond discard p.1 = true ∧ p.2.documentedFatal = true) ∧
+    (instanceRunSched false (tokensOf tokens) = instanceRun (tokens.map (·.2.run))) := by
+  have hw : ∀ t ∈ tokensOf tokens, t.waitOk = true := by
+    intro t ht
+    obtain ⟨p, _, rfl⟩ := List.mem_map.mp ht
+    rfl
+  refine ⟨?_, ?_, ?_⟩
+  · intro h
+    have hp : ∀ t ∈ tokensOf tokens, shootCond discard t.slowDown = true → t.shot.panicked = false := by
+      intro t ht hc
+      obtain ⟨p, hp, rfl⟩ := List.mem_map.mp ht
+      rw [run_panicked_iff]
+      exact h p hp (by rw [Bridge.C19.instanceShootCond_eq]; exact hc)
+    obtain ⟨h1, h2, h3⟩ := instanceRunSched_all discard _ hw hp
+    refine ⟨h1, by simpa [tokensOf] using h2, ?_⟩
+    rw [h3]
+    simp only [tokensOf, List.map_map, Function.comp_def, tokenSamples, Bridge.C19.instanceShootCond_eq]
+    rfl
+  · rw [instanceRunSched_failed_iff discard _ hw]
+    constructor
+    · rintro ⟨t, ht, hc, hpn⟩
+      obtain ⟨p, hp, rfl⟩ := List.mem_map.mp ht
+      exact ⟨p, hp, by rw [Bridge.C19.instanceShootCond_eq]; exact hc, by rw [← run_panicked_iff]; exact hpn⟩
+    · rintro ⟨p, hp, hc, hf⟩
+      exact ⟨_, List.mem_map.mpr ⟨p, hp, rfl⟩, by rw [← Bridge.C19.instanceShootCond_eq]; exact hc,
+        by rw [run_panicked_iff]; exact hf⟩
+  · rw [instanceRunSched_nodiscard _ hw]
+    simp [tokensOf, List.map_map, Function.comp_def]
+
+/-- The shared `NextIterator` under ANY interleaving: any number of instances (goroutines numbered below `n`), each
+calling `Next` again and again, the scheduler picking who makes the next step (lock, begin of the map access, end of
+the map access, unlock) for as long as it likes — with the mutex (the current source: `Bridge.C19.mpIterNext_locked`,
+`mpIterRand_locked`) no map access ever begins while another goroutine is inside one: `[next]` in the preprocessors
+of several instances cannot be the `fatal error: concurrent map writes` that no recover() catches. -/
+theorem C19_iterator_interleaving (n : Nat) (sched : List Nat) :
+    (iterRun true n {} sched).fatal = false ∧
+    Gen.RespGuard.mpIterNext.take 2 = ["v0.mx.Lock()", "defer v0.mx.Unlock()"] ∧
+    Gen.RespGuard.mpIterRand.take 2 = ["v0.mx.Lock()", "defer v0.mx.Unlock()"] :=
+  ⟨(iterRun_inv n sched {} iterInv_init).1, Bridge.C19.mpIterNext_locked, Bridge.C19.mpIterRand_locked⟩
+
+/-- …and the mutex is NEEDED: without it two instances suffice (the second begins its map access while the first is
+inside) — right for one participant, fatal for two. -/
+theorem C19_iterator_needs_mutex : ∃ n sched, (iterRun false n {} sched).fatal = true :=
+  ⟨2, [0, 0, 1, 1], by decide⟩
+
+/-- lib/netutil's DNS-caching dialer is TRANSPARENT for what the peer does: for every sequence of dial outcomes of a
+run (refused, connected, in any order, before and after the cache is filled) the guns see exactly the outcomes of the
+underlying dials, nothing panics (the remote address of a connected tcp connection is a `*net.TCPAddr`; for every
+`DialFacts` with that fact), a failed dial remembers nothing and the cache is filled by the first successful one. -/
+theorem C19_dns_cache_transparent :
+    (∀ (cached : Bool) (os : List DialOutcome),
+      dnsDials {} cached os = .ok (os, cached || os.any (· == .connected))) ∧
+    (∀ (f : DialFacts) (cached : Bool) (o : DialOutcome), f.remoteIsTCP = true → ∃ r, dnsDial f cached o = .ok r) ∧
+    (∀ f : DialFacts, dnsDial f false .refused = .ok (.refused, false)) :=
+  ⟨dnsDials_transparent, dnsDial_ok, fun _ => rfl⟩
+
+/-- the order of the two independent-looking operations of the dialer matters: remembering the address BEFORE looking
+at the error of the dial reads the remote address of a connection that does not exist — every refused connection of a
+host-name target would be a panic inside `Shoot`. -/
+theorem C19_dns_cache_order_matters :
+    dnsDialAddFirst {} false .refused = .panic "invalid memory address or nil pointer dereference" := rfl
+
+/-- Who owns the pooled sample of a scenario step, for EVERY step list and every outcome of every step (http/scenario
+and http2/scenario, outside the documented fatal configuration): the sample of every entered step is acquired, touched
+only while the gun owns it, handed to the aggregator EXACTLY once and never touched afterwards (the phout aggregator
+returns it to the pool; another instance acquires it), and the number of hand-overs is the number of samples of the
+shot.  Tie: `Bridge.C19.scenarioReportLastUse_eq` (the Report of `shootStep` is its last use of the sample and no error
+can be returned after it), `scenarioReportCalls_eq`, `scenarioShootLoop_eq`, `scenarioReportErrStmts_eq`. -/
+theorem C19_sample_ownership (h2 : Bool) (scn : String) (steps : List (StepCfg × H2Facts × Reply))
+    (hf : (GunShot.scenario h2 scn steps).documentedFatal = false) :
+    let ss : List Step := steps.map fun (c, f, r) => { name := c.name, outcome := stepOutcomeH2 h2 f c r }
+    (∀ tr ∈ scenarioOps false ss, wellOwned tr = true) ∧
+    ((scenarioOps false ss).map reportsIn).sum = (GunShot.scenario h2 scn steps).run.reports.length ∧
+    Gen.RespGuard.scenarioReportLastUse = true := by
+  intro ss
+  have hp : (shootScenario scn ss).panicked = false := by
+    have := run_panicked_iff (GunShot.scenario h2 scn steps)
+    rw [hf] at this
+    exact this
+  obtain ⟨h1, h2'⟩ := scenarioOps_wellOwned scn ss hp
+  exact ⟨h1, h2', Bridge.C19.scenarioReportLastUse_eq⟩
+
+/-- the seeded order (SetProtoCode / Report moved in front of the postprocessor loop) is NOT well owned: a step whose
+postprocessor refuses the response hands its sample over twice and writes to it in between. -/
+theorem C19_report_before_postprocessors_counterexample :
+    ∀ st, wellOwned (stepOps true (.received st .err)) = false ∧ reportsIn (stepOps true (.received st .err)) = 2 :=
+  fun _ => ⟨rfl, rfl⟩
+
 /-! ## the defects of the tree as found (what the two fixes repair) -/
 
 /-- `substr(5)` on a 3-byte header value: the closure as found slices `in[3:5]` and panics. -/
@@ -738,5 +850,22 @@ example : shootGrpcScenarioV (some Gen.RespGuard.maxRandStringLength) "g" {}
        { name := "c1", cfg := ⟨"t1", .callable, []⟩, reply := ⟨0, fun _ => true⟩,
          pre := [("x", .path [⟨"request", none⟩, ⟨"c0", none⟩, ⟨"postprocessor", none⟩, ⟨"result", some .rand⟩] {})] }]
     = { reports := [⟨"g.t0", 0, 200, 0⟩, ⟨"g.t1", 0, 0, 0⟩], panicked := false } := by decide
+
+-- round 4. C19_discard_overflow: a slow first answer makes the second token overdue; with discard_overflow it is
+-- reported as ONE discarded sample, the third shot is taken again
+example : (instanceRunSched true (tokensOf
+    [(false, .grpc "a" (.invoked 0)), (true, .grpc "b" (.invoked 5)), (false, .grpc "c" (.invoked 14))])).samples =
+    [⟨"a", 0, 200, 0⟩, ⟨"discarded", 0, 0, 777⟩, ⟨"c", 0, 503, 0⟩] := by decide
+-- … and without it all three shots are taken
+example : ((instanceRunSched false (tokensOf
+    [(false, .grpc "a" (.invoked 0)), (true, .grpc "b" (.invoked 5)), (false, .grpc "c" (.invoked 14))])).samples).length = 3 := by decide
+-- C19_iterator_interleaving: three instances, an interleaving in which two of them are blocked in Lock() for a while
+example : (iterRun true 3 {} [0, 1, 2, 0, 1, 0, 2, 0, 1, 1, 1, 1, 2, 2, 2, 2]).handed.map (·.2) = [2, 1, 0] := by decide
+-- C19_dns_cache_transparent: refused, refused, connected (fills the cache), refused through the cached address
+example : dnsDials {} false [.refused, .refused, .connected, .refused] =
+    .ok ([.refused, .refused, .connected, .refused], true) := by decide
+-- C19_sample_ownership: a failing assertion on the second step
+example : scenarioOps false [⟨"a", .received 200 .ok⟩, ⟨"b", .received 200 .err⟩, ⟨"c", .received 200 .ok⟩] =
+    [[.acquire, .touch, .touch, .report], [.acquire, .touch, .touch, .touch, .touch, .report]] := by decide
 
 end Pandora.Props.C19
